@@ -482,7 +482,7 @@ func init() {
 				if tier == "thorough" {
 					return 60000
 				}
-				return 1600
+				return 6000
 			},
 			Budget: func(tier string) time.Duration {
 				if tier == "thorough" {
